@@ -31,6 +31,11 @@ RULE = ('Hypothesis cases of two kinds.  kind=op (about 85%): a file '
         'createDimension/createVariable, from_ncf, from_ncvs, or saved and '
         'reopened as class netcdf; or an IOAPI file from ioapi_base.'
         'from_arrays, optionally with -635 dates in TFLAG; query files also '
+        'include disk-backed netcdf receivers written with plain netCDF4 that '
+        'hold a packed int16 variable (scale_factor/add_offset, with/without '
+        '_FillValue and missing cells); generic transform files declare 1-2 '
+        'variables (1-D coordinates, 2-D, masked) as coordinates through '
+        'setCoords in a third of the in-memory cases; other query files '
         'carry a 1-D coordinate variable (uniform or not, ascending or '
         'descending, f8/f4/i4, with no / 1-D-edge / n x 2 bounds variable) '
         'and a CF time variable (with/without time_bounds)) x one entry of '
@@ -181,7 +186,49 @@ def query_files(draw):
     return fs
 
 
+@st.composite
+def packed_files(draw):
+    """spec of a disk-backed netCDF receiver with a packed variable"""
+    nt = draw(st.integers(1, 3))
+    nx = draw(st.integers(2, 4))
+    fill = -32767
+    has_fill = draw(st.integers(0, 3)) > 0
+    raw = draw(st.lists(st.integers(-3000, 3000), min_size=nt * nx,
+                        max_size=nt * nx))
+    missing = has_fill and draw(st.integers(0, 3)) > 0
+    if missing:
+        holes = draw(st.lists(st.booleans(), min_size=nt * nx,
+                              max_size=nt * nx))
+        if not any(holes):
+            holes[0] = True
+        raw = [fill if h else r for r, h in zip(raw, holes)]
+    pvals = draw(st.lists(st.integers(-40, 40), min_size=nt * nx,
+                          max_size=nt * nx))
+    pmask = draw(st.lists(st.booleans(), min_size=nt * nx, max_size=nt * nx))
+    how = draw(st.sampled_from(['both', 'both', 'scale', 'offset']))
+    step = draw(st.integers(1, 3))
+    xs = [10.0 + step * i for i in range(nx)]
+    hastime = draw(st.booleans())
+    tv = [float(6 * (i + 1)) for i in range(nt)]
+    fs = dict(kind='packed', shape=[nt, nx],
+              fmt=draw(st.sampled_from(['NETCDF4_CLASSIC', 'NETCDF3_CLASSIC',
+                                        'NETCDF4'])),
+              unlimited=draw(st.booleans()), x=xs, raw=raw, has_fill=has_fill,
+              fill=fill, missing=bool(missing),
+              scale=0.01 if how in ('both', 'scale') else None,
+              offset=273.15 if how in ('both', 'offset') else None,
+              p=[float(v) / 2 for v in pvals], pmask=[int(b) for b in pmask],
+              time=hastime, tvals=tv)
+    fs['qmeta'] = dict(
+        coord=dict(dim='x', vals=xs, uniform=True, bounds='none', code='f8',
+                   sign=1),
+        time=hastime, tbounds=False, tvals=tv)
+    return fs
+
+
 def save_formats(fs):
+    if fs.get('kind') == 'packed':
+        return ['NETCDF3_CLASSIC', 'NETCDF4_CLASSIC', 'NETCDF4']
     if fs.get('kind') == 'ioapi':
         return ['NETCDF3_CLASSIC', 'NETCDF4_CLASSIC', 'NETCDF4']
     out = ['NETCDF4']
@@ -203,6 +250,8 @@ def draw_query(draw, fs):
             qs += ['getTimes'] * 3 + ['time2idx'] * 2 + ['date2num']
         if m.get('coord'):
             qs += ['val2idx'] * 6
+    if fs.get('kind') == 'packed':
+        qs += ['save'] * 4 + ['dump', 'repr']
     q = draw(st.sampled_from(qs))
     if q == 'getTimes':
         return dict(q=q, bounds=draw(st.booleans()),
@@ -239,16 +288,19 @@ def draw_query(draw, fs):
 
 TRANSFORM_WEIGHTS = dict(slice=3, apply=2, stack=2, insert=2, rmsing=2,
                          reorder=2, rendim=2, interpsigma=2, interp=3,
-                         mask=2, eval=2, binop=6, copy=2)
+                         mask=2, eval=3, binop=6, copy=2, subset=4)
 
 
 @st.composite
 def op_cases(draw):
     which = draw(st.sampled_from(['transform'] * 5 + ['query'] * 4))
     if which == 'query':
-        if draw(st.integers(0, 3)) == 0:
+        pick = draw(st.integers(0, 7))
+        if pick <= 1:
             fs = draw(O.ioapi_specs(max_n=3, disk=False))
             fs['tflag635'] = draw(st.booleans())
+        elif pick <= 3:
+            fs = draw(packed_files())
         else:
             fs = draw(query_files())
         call = draw(draw_query(fs))
@@ -451,7 +503,14 @@ def _check_op(case, keep):
         r.label('kind:' + ('query' if is_query else 'transform'),
                 ('q:' if is_query else 'op:') + name)
         r.label('file:' + (fs.get('route', 'create')
-                           if fs.get('kind') != 'ioapi' else 'ioapi'))
+                           if fs.get('kind') not in ('ioapi', 'packed')
+                           else fs['kind']))
+        if fs.get('kind') == 'packed':
+            r.label('packed:' + ('missing-cells' if fs.get('missing') else
+                                 ('fill-declared' if fs.get('has_fill')
+                                  else 'no-fill')))
+        if fs.get('coordkeys'):
+            r.label('setCoords-declared')
         if fs.get('tflag635'):
             r.label('ioapi:tflag-635')
         qm = fs.get('qmeta') or {}
